@@ -57,9 +57,18 @@ func (s *storageAdapter) GetPipeline(ctx context.Context, id string) (*ledger.Pi
 }
 
 func (s *storageAdapter) OpenLedger(ctx context.Context, name string) (LogFetcher, *ledger.Ledger, error) {
-	store, l, err := s.storageDriver.OpenLedger(ctx, name)
+	_, l, err := s.storageDriver.OpenLedger(ctx, name)
 
+	// A pipeline keeps its fetcher for its whole life, while the alone-in-bucket hint of a store (which lets it
+	// drop the `ledger = ?` predicate) is only refreshed when this process opens or creates a ledger of the
+	// bucket. A standalone worker never sees the ledgers created through the API: with a store opened once, the
+	// pipeline of a ledger that was alone in its bucket would export the logs of every ledger added later.
+	// Open the ledger again for each fetch.
 	return LogFetcherFn(func(ctx context.Context, query common.PaginatedQuery[any]) (*paginate.Cursor[ledger.Log], error) {
+		store, _, err := s.storageDriver.OpenLedger(ctx, name)
+		if err != nil {
+			return nil, err
+		}
 		return store.Logs().Paginate(ctx, query)
 	}), l, err
 }
